@@ -59,7 +59,6 @@ class IdealReservoir:
         time : ndarray
             times to solve for pressure
         """
-        self.time = time
         x = np.linspace(0, 1, self.nx)
         dx_squared = (x[1] - x[0]) ** 2
         pseudopressure = np.empty((len(time), self.nx))
@@ -73,7 +72,7 @@ class IdealReservoir:
             pseudopressure[i + 1], _ = sparse.linalg.bicgstab(a_matrix, b, atol=_ATOL)
         # a recovery cached from an earlier run does not belong to these results
         self.__dict__.pop("recovery", None)
-        self.pseudopressure = pseudopressure
+        self.time, self.pseudopressure = time, pseudopressure
 
     def recovery_factor(self, time: ndarray | None = None, density=False) -> ndarray:
         """Calculate recovery factor over time.
@@ -182,7 +181,6 @@ class SinglePhaseReservoir(IdealReservoir):
         ------
         ValueError: wrong length changing pressure at frac-face
         """
-        self.time = time
         dx_squared = (1 / self.nx) ** 2
         pseudopressure = np.empty((len(time), self.nx))
         if pressure_fracface is None:
@@ -215,7 +213,7 @@ class SinglePhaseReservoir(IdealReservoir):
             pseudopressure[i + 1], _ = sparse.linalg.bicgstab(a_matrix, b, atol=_ATOL)
         # a recovery cached from an earlier run does not belong to these results
         self.__dict__.pop("recovery", None)
-        self.pseudopressure = pseudopressure
+        self.time, self.pseudopressure = time, pseudopressure
 
 
 @dataclass
